@@ -127,10 +127,14 @@ pub broadcast proof fn lemma_append_to_nil(a: Seq<ResourceRecord>, b: Seq<Resour
     ensures #[trigger] (a + b) == b
 { assert(a + b =~= b); }
 pub broadcast group group_answer { lemma_chain_nil, lemma_append_to_nil }
+// C18: what this server process was configured with (ListenArgs); same constants as in units local / recursive
+pub uninterp spec fn configured_forwarder() -> SocketAddr;
+pub uninterp spec fn configured_port() -> u16;
 // the resolver: any metrics, any result, except for the clause unit `local` proves for `resolve` (local/resolve/post:answer_holds_only_the_question_name_and_its_alias_chain)
 #[verifier::external_body]
 pub async fn resolve(is_recursive: bool, protocol_mode: ProtocolMode, upstream_dns_port: u16, forward_address: Option<SocketAddr>,
     zones: &ZonesGuard, cache: &SharedCache, question: &Question) -> (r: (Metrics, Result<ResolvedRecord, ResolutionError>))
+    requires upstream_dns_port == configured_port(), forward_address is Some ==> forward_address->Some_0 == configured_forwarder(), // [C18:the_resolver_is_given_the_configured_port_and_forwarder]
     ensures question.qtype != QueryType::Wildcard && r.1 is Ok ==> chain_ok(resolved_rrs(r.1->Ok_0), question.name),
 { unimplemented!() }
 #[verifier::external_body]
@@ -184,8 +188,9 @@ MAIN_SPECS = {
         query.questions@.len() == 1 && !question_unknown(query.questions@[0]) ==> r is Ok && r->Ok_0 is Some && *r->Ok_0->Some_0 == query.questions@[0],
         query.questions@.len() == 1 && question_unknown(query.questions@[0]) ==> r is Err, // [C09:refused_for_unknown_type_or_class]
         query.questions@.len() > 1 ==> r is Err, // [C09:refused_for_several_questions]"""},
-    "resolve_and_build_response": {"props": ["C09", "C01"],
-        "contract": """    ensures
+    "resolve_and_build_response": {"props": ["C09", "C01", "C18"],
+        "contract": """    requires args.upstream_dns_port == configured_port(), args.forward_address is Some ==> args.forward_address->Some_0 == configured_forwarder(),
+    ensures
         echoes(query, r), // [C09:reply_echoes_id_opcode_rd_question]
         r.header.recursion_available == !args.authoritative_only, // [C09:ra_exactly_when_recursion_offered]
         query.questions@.len() > 1 || (query.questions@.len() == 1 && question_unknown(query.questions@[0]))
@@ -198,7 +203,7 @@ MAIN_SPECS = {
         query.questions@.len() == 1 && query.questions@[0].qtype != QueryType::Wildcard ==> chain_ok(r.answers@, query.questions@[0].name), // [C09:answer_section_holds_only_the_question_name_and_its_alias_chain]""",
         "entry": BU + " broadcast use group_answer;"},
     "handle_raw_message": {"props": ["C09"],
-        "contract": """    requires buf@.len() <= 0xffff,
+        "contract": """    requires buf@.len() <= 0xffff, args.upstream_dns_port == configured_port(), args.forward_address is Some ==> args.forward_address->Some_0 == configured_forwarder(),
     ensures
         buf@.len() < 2 ==> r is None, // [C09:no_reply_to_a_message_too_short_for_an_id]
         r is Some ==> r->Some_0.header.is_response && !r->Some_0.header.is_truncated, // [C09:reply_has_qr_set]
@@ -267,6 +272,7 @@ fn shim_panic_incomplete() requires false, // [C09:server_never_panics_on_a_shor
 
 
 CANARIES = [
+    {"name": "resolver_given_a_fixed_port", "file": MAIN, "old": "                args.upstream_dns_port,\n                args.forward_address,", "new": "                53,\n                args.forward_address,"},
     {"name": "referral_ns_records_in_the_answer_section", "file": MAIN, "old": "                            response.authority.append(&mut ns_rrs);", "new": "                            response.answers.append(&mut ns_rrs);"},
     {"name": "udp_cut_at_513", "file": NET, "old": "        sock.send_to(&bytes[..512], target).await?;", "new": "        sock.send_to(&bytes[..513], target).await?;"},
     {"name": "udp_tc_not_cleared", "file": NET, "old": "        bytes[2] &= 0b1111_1101;\n        sock.send_to(bytes, target).await?;", "new": "        sock.send_to(bytes, target).await?;"},
